@@ -56,7 +56,7 @@ def eval_case(hist, rec):
 
 def strategy():
     return histgen.histories(KINDS, max_ops=22, n_variants=(1, 2),
-                             gen_kw=dict(max_modules=3, max_tasks=4, kinds=gen.KINDS_ALL, allow_context=False), name_mode=True)
+                             gen_kw=dict(max_modules=3, max_tasks=4, kinds=gen.KINDS_ALL, allow_context=False), name_mode=3)
 
 
 def plan(tier):
